@@ -19,8 +19,8 @@
 (***************************************************************************)
 EXTENDS HGX, Dec, Derive, Json, IOUtils, TLCExt
 
-VARIABLES ti, li, store, nbad, nev, seen
-tvars == <<ti, li, store, nbad, nev, seen>>
+VARIABLES ti, li, store, nbad, nev, seen, lays
+tvars == <<ti, li, store, nbad, nev, seen, lays>>
 
 \* the batch is deserialised once (register 42), not at every step
 Traces == TLCGet(42)
@@ -195,8 +195,23 @@ HashClauses(ev, Q) ==
   \cup (IF Has(ev, "digest_close")
         THEN {<<"hash_distinguishes_close_weights", ev.digest_close[1] # ev.digest_close[2]>>} ELSE {})
 
+(* Multiplex layer registry (C04): the layers reported in use must come from insertions that were  *)
+(* accepted - a history variable per object (the registry may keep layers whose records are gone). *)
+LayersOfOp(op) ==
+  CASE op.op = "add_edge"  -> {op.k.x}
+    [] op.op = "add_edges" -> {op.items[i].k.x : i \in DOMAIN op.items}
+    [] OTHER -> {}
+LaysAfter(ev, op, Q) ==
+  LET o == ev.obj
+      before == IF op.op = "copy" /\ op.from \in DOMAIN lays THEN lays[op.from]
+                ELSE IF o \in DOMAIN lays /\ op.op \notin {"new", "adopt"} THEN lays[o] ELSE {}
+  IN before \cup LayersUsed(Q) \cup (IF ev.ok THEN LayersOfOp(op) ELSE {})
+LayerClauses(ev, op, Q) ==
+  IF Kind # "mux" \/ ~Has(ev, "q") \/ ~Has(ev.q, "layers") THEN {} ELSE
+  {<<"layers_only_from_accepted_insertions", Rng(ev.q.layers) \subseteq LaysAfter(ev, op, Q)>>}
+
 ---------------------------------------------------------------------------
-TInit == /\ ti = 1 /\ li = 1 /\ store = <<>> /\ nbad = 0 /\ nev = 0 /\ seen = <<>>
+TInit == /\ ti = 1 /\ li = 1 /\ store = <<>> /\ nbad = 0 /\ nev = 0 /\ seen = <<>> /\ lays = <<>>
          /\ TLCSet(42, JsonDeserialize(IOEnv.TRACE_FILE).traces)
 
 Judge(ev) ==
@@ -218,17 +233,20 @@ Judge(ev) ==
       qs == IF Has(ev, "q") THEN QueryClauses(ev.q, Q) ELSE {}
       ds == IF Has(ev, "d") THEN DeriveClauses(ev.d, Q) ELSE {}
   IN {c[1] : c \in {c \in step \cup others \cup ProjClauses(ev, j, Q) \cup qs \cup ds
-                          \cup LoadClauses(ev, Q) \cup HashClauses(ev, Q) : ~c[2]}}
+                          \cup LoadClauses(ev, Q) \cup HashClauses(ev, Q) \cup LayerClauses(ev, op, Q) : ~c[2]}}
 
 TNext ==
   /\ ti <= Len(Traces)
   /\ IF li > Len(Traces[ti])
-     THEN /\ ti' = ti + 1 /\ li' = 1 /\ store' = <<>> /\ UNCHANGED <<nbad, nev, seen>>
+     THEN /\ ti' = ti + 1 /\ li' = 1 /\ store' = <<>> /\ lays' = <<>> /\ UNCHANGED <<nbad, nev, seen>>
           /\ (ti < Len(Traces) \/ PrintT("DONE " \o ToString(nev) \o " " \o ToString(nbad)))
      ELSE LET ev == Traces[ti][li]
               failed == Judge(ev)
           IN /\ store' = [x \in Objs(ev) |-> StateOf(ev, x)]
              /\ li' = li + 1 /\ ti' = ti /\ nev' = nev + 1
+             /\ lays' = IF Kind = "mux"
+                        THEN Upd(lays, ev.obj, LaysAfter(ev, DecOp(ev.op), StateOf(ev, ev.obj)))
+                        ELSE lays
              /\ seen' = IF Has(ev, "digest") /\ ev.digest \notin DOMAIN seen
                         THEN Upd(seen, ev.digest, <<ev.lab, StateOf(ev, ev.obj)>>) ELSE seen
              /\ nbad' = IF failed = {} THEN nbad ELSE nbad + 1
